@@ -1060,7 +1060,11 @@ func (self *Fork) doChunks(state MetadataState, getBindings func() MarshalerMap)
 			self.storageLock.Lock()
 			defer self.storageLock.Unlock()
 			lockAquired <- struct{}{}
-			self.cleanSplitTemp(nil)
+			// After a restart this can run again for a fork whose split
+			// was already cleaned up.  Don't start the report over.
+			if partial := self.getPartialKillReport(); partial == nil || !partial.Split {
+				self.cleanSplitTemp(partial)
+			}
 		}()
 		<-lockAquired
 	}
@@ -1459,11 +1463,12 @@ func (self *Fork) getVdrKillReport() (*VDRKillReport, bool) {
 }
 
 func (self *Fork) getPartialKillReport() *PartialVdrKillReport {
-	if self.metadata.exists(PartialVdr) {
-		var killReport PartialVdrKillReport
-		if self.metadata.ReadInto(PartialVdr, &killReport) == nil {
-			return &killReport
-		}
+	// Don't rely on the cached directory listing here: after a restart it
+	// has not necessarily seen the file, and starting over with an empty
+	// report would lose the accounting for what was already cleaned up.
+	var killReport PartialVdrKillReport
+	if self.metadata.ReadInto(PartialVdr, &killReport) == nil {
+		return &killReport
 	}
 	return nil
 }
